@@ -4,8 +4,10 @@ package concx
 
 import (
 	"context"
+	"encoding/gob"
 	"encoding/json"
 	"fmt"
+	"github.com/go-git/go-billy/v5"
 	"os"
 	"os/exec"
 	"path/filepath"
@@ -79,11 +81,48 @@ func (r *rng) n(k int) int {
 	return int((r.s >> 3) % uint64(k))
 }
 
+// slowCreateFS delays the creation of the cache's own files by a few milliseconds, a different amount each time: whatever the code
+// under test does between computing what to write and writing it gets room to be overtaken (a scheduler gate: under the locks the
+// code holds it changes nothing but the pace)
+type slowCreateFS struct {
+	billy.Filesystem
+	n *int64
+}
+
+func (f slowCreateFS) Create(name string) (billy.File, error) {
+	if strings.HasPrefix(name, "cache") {
+		k := atomic.AddInt64(f.n, 1)
+		time.Sleep(time.Duration((k*7)%4) * time.Millisecond)
+	}
+	return f.Filesystem.Create(name)
+}
+
+// excerptFile reads the excerpt file of the bugs as the next process would.
+func excerptFile(dir string) (map[entity.Id]*cache.BugExcerpt, error) {
+	f, err := os.Open(filepath.Join(dir, ".git", "git-bug", "cache", "bugs"))
+	if err != nil {
+		return nil, err
+	}
+	defer f.Close()
+	aux := struct {
+		Version  uint
+		Excerpts map[entity.Id]*cache.BugExcerpt
+	}{}
+	if err := gob.NewDecoder(f).Decode(&aux); err != nil {
+		return nil, err
+	}
+	return aux.Excerpts, nil
+}
+
 // barrierCheck: between two rounds of concurrent calls, the excerpt and the index document of every bug against its instance.
-func barrierCheck(c *cache.RepoCache, mu *sync.Mutex, bugIds *[]entity.Id, round int) string {
+func barrierCheck(c *cache.RepoCache, dir string, mu *sync.Mutex, bugIds *[]entity.Id, round int) string {
 	mu.Lock()
 	ids := append([]entity.Id{}, (*bugIds)...)
 	mu.Unlock()
+	onDisk, derr := excerptFile(dir)
+	if derr != nil {
+		return fmt.Sprintf("after round %d the excerpt file cannot be read: %v", round+1, derr)
+	}
 	for _, id := range ids {
 		e, err1 := c.Bugs().ResolveExcerpt(id)
 		b, err2 := c.Bugs().Resolve(id)
@@ -94,6 +133,15 @@ func barrierCheck(c *cache.RepoCache, mu *sync.Mutex, bugIds *[]entity.Id, round
 		if e.Title != s.Title || e.LenComments != len(s.Comments) || e.EditLamportTime != b.EditLamportTime() {
 			return fmt.Sprintf("after round %d the excerpt of bug %s says title=%q comments=%d edit time=%d, its instance title=%q comments=%d edit time=%d",
 				round+1, id.Human(), e.Title, e.LenComments, e.EditLamportTime, s.Title, len(s.Comments), b.EditLamportTime())
+		}
+		// ... and the excerpt file, which is what the next process starts from
+		if d, ok := onDisk[id]; !ok || d.Title != s.Title || d.LenComments != len(s.Comments) || d.EditLamportTime != b.EditLamportTime() {
+			got := "nothing"
+			if ok {
+				got = fmt.Sprintf("title=%q comments=%d edit time=%d", d.Title, d.LenComments, d.EditLamportTime)
+			}
+			return fmt.Sprintf("after round %d the excerpt file holds %s about bug %s, its instance title=%q comments=%d edit time=%d",
+				round+1, got, id.Human(), s.Title, len(s.Comments), b.EditLamportTime())
 		}
 		// ... and what the search index holds about it: the bug is found by the last word of its title
 		if f := strings.Fields(s.Title); len(f) > 0 && strings.HasPrefix(f[len(f)-1], "word") {
@@ -117,6 +165,10 @@ func one(cfg Config) *Result {
 	res := &Result{Ev: "Run", Config: cfg, Acks: []Ack{}, Maybes: []Ack{}, Bugs: []BugState{}, Panics: []string{}, Errors: []string{}}
 	dir := hx.Scratch("conc")
 	defer os.RemoveAll(dir)
+	if cfg.Rounds > 1 {
+		var created int64
+		repository.VerifWrapLocalStorage = func(fs billy.Filesystem) billy.Filesystem { return slowCreateFS{fs, &created} }
+	}
 	repo := hx.InitRepo(dir)
 	c, err := hx.OpenCache(repo)
 	hx.Must(err)
@@ -364,7 +416,7 @@ func one(cfg Config) *Result {
 			// everybody is done with this round: what the cache lists about a bug is what its instance holds. The looks themselves
 			// go through the cache: when a lock was left behind they never come back, which is a deadlock like any other
 			checked := make(chan string, 1)
-			go func(round int) { checked <- barrierCheck(c, &mu, &bugIds, round) }(round)
+			go func(round int) { checked <- barrierCheck(c, dir, &mu, &bugIds, round) }(round)
 			select {
 			case st := <-checked:
 				res.Stale = st
@@ -418,6 +470,16 @@ func one(cfg Config) *Result {
 		res.Bugs = append(res.Bugs, st)
 	}
 	_ = repo2.Close()
+	// the cache as the next process finds it: opened again on the files the goroutines left (excerpts and index as written last)
+	reopened := ""
+	if repoR, err := repository.OpenGoGitRepo(dir, "git-bug", nil); err == nil {
+		if cR, err := hx.OpenCache(repoR); err == nil {
+			reopened = serve(cR)
+			_ = cR.Close()
+		} else {
+			reopened = "reopening failed: " + err.Error()
+		}
+	}
 	// a cache rebuilt from scratch
 	_ = os.RemoveAll(filepath.Join(dir, ".git", "git-bug", "cache"))
 	_ = os.RemoveAll(filepath.Join(dir, ".git", "git-bug", "indexes"))
@@ -430,9 +492,11 @@ func one(cfg Config) *Result {
 	}
 	rebuilt := serve(c3)
 	_ = c3.Close()
-	res.Agrees = live == rebuilt
-	if !res.Agrees {
+	res.Agrees = live == rebuilt && reopened == rebuilt
+	if live != rebuilt {
 		res.Diff = firstDiff(live, rebuilt)
+	} else if reopened != rebuilt {
+		res.Diff = "the cache opened again on the files left behind: " + firstDiff(reopened, rebuilt)
 	}
 	return res
 }
